@@ -57,7 +57,7 @@ def workload(ctx, g):
     samples = [("UTF-8", "Grüße, 世界! €"), ("ISO-8859-1", "crème brûlée ÿ"), ("Shift_JIS", "日本語テキスト"), ("Shift_JIS", "abc日本語"),
                ("Shift_JIS", "ｱｲｳ"), ("ISO-8859-15", "100 € prix"), ("windows-1252", "“quoted” – dash"), ("UTF-16BE", "wide 世界"),
                ("EUC-KR", "한국어 텍스트"), ("GB18030", "中文文本"), ("Big5", "繁體中文"), ("UTF-8", "12345"), ("ISO-8859-1", "ABC-123"),
-               ("", "plain ascii text"), ("", "ÀÉÎÕÜ mixed ßøå 12"), ("", "こんにちは世界"), ("", "\U0001f600 emoji \U0001f680"), ("", "a"), ("", "7"), ("", "Z")]
+               ("", "plain ascii text"), ("", "ÀÉÎÕÜ mixed ßøå 12"), ("", "こんにちは世界"), ("", "\U0001f600 emoji \U0001f680"), ("", "\U00020bb7"), ("", "Yoshinoya \U00020bb7 2024"), ("", "\U00020820\U00020bb7"), ("", "a"), ("", "7"), ("", "Z")]
     for i, (cs, t) in enumerate(samples):
         for ec in ((1, 3) if ctx.quick else (1, 2, 3, 4)):
             ev.append(qrlib.enc(list(t.encode("utf-8")), ec, cs=cs, dec=1, chk=1, img=(0, 0, 4) if i % 2 == 0 else (90, 70, 6), tag="charset"))
